@@ -101,6 +101,17 @@ def to_case(o):
                                                         "; ".join(val(x) for x in (o.get("ret") or [])), "; ".join(val(x) for x in (o.get("ans") or [])))
     if o["kind"] == "errno":
         return "CErr (%s) %d" % (errv(o["answer"]), o["errno"])
+    if o["kind"] == "renseq":
+        def sop(st):
+            if st["op"] == "renameat":
+                return "SRenameAt %d%%nat %s %d%%nat %s" % (st["d"], bstr(st["old"] or []), st["d2"], bstr(st["new"] or []))
+            if st["op"] == "rename":
+                return "SRename %d%%nat %d%%nat %s" % (st["f"], st["d2"], bstr(st["new"] or []))
+            return "SProbe %d%%nat %s [%s]" % (st["f"], coq_string(st["m"]), "; ".join(val(a) for a in st["args"]))
+        def serr(e):
+            return "None" if e["k"] == "nil" else ("(Some %d%%N)" % e["n"] if e["k"] == "errno" else "(Some 4294967295%N)")
+        return "CSeq %d %s %s [%s]" % (o["version"], nl(o["fids"]), bstr(o["fname"] or []),
+                                        "; ".join("(%s, [%s], %s)" % (sop(st), ocalls(st["calls"]), serr(st["err"])) for st in o["steps"]))
     params = "fun k => " + "".join("if (k =? %s)%%string then %s else " % (coq_string(k), val(v)) for k, v in sorted(o["params"].items())) + 'VS "?"'
     pfid = "fun k => (" + "".join("if (k =? %s)%%string then %d else " % (coq_string(k), v) for k, v in sorted(o["pfid"].items())) + "0)%N"
     calls = "; ".join("mkoc %s (%s) [%s]" % (coq_string(c["m"]), target(c["on"]), "; ".join(val(a) for a in (c["args"] or []))) for c in (o["calls"] or []))
@@ -113,7 +124,7 @@ def to_case(o):
         "[" + "; ".join(val(x) for x in (o.get("ret") or [])) + "]", "[" + "; ".join(val(x) for x in (o.get("ans") or [])) + "]")
 
 
-HEADER = ("From Coq Require Import NArith String List.\nFrom P9V Require Import Base.Str gen.ClientGen Client.Chunk Client.ClientModel Client.Errs Client.Composed Client.ClientCases.\n"
+HEADER = ("From Coq Require Import NArith String List.\nFrom P9V Require Import Base.Str gen.ClientGen Client.Chunk Client.ClientModel Client.Errs Client.Composed Client.PathSeq Client.ClientCases.\n"
           "Import ListNotations.\nOpen Scope string_scope.\nOpen Scope N_scope.\n"
           "Definition cases : list c03case := [\n  %s\n].\n"
           "Definition M := Eval vm_compute in mismatches cases.\nPrint M.\n"
